@@ -15,6 +15,7 @@ pub fn run_property(property: &str, tier: Tier) -> i32 {
     let configs = families::build(family, tier);
     let mut report = Report::new(property, tier, "model_checking");
     run_family_into(&mut report, property, family, configs, tier);
+    if property == "C10" { super::deque::run(&mut report, tier); }
     report.finish()
 }
 
